@@ -17,6 +17,7 @@ import (
 
 	"github.com/go-gts/gts"
 	"github.com/go-gts/gts/seqio"
+	"github.com/go-pars/pars"
 )
 
 func init() {
@@ -30,6 +31,8 @@ func init() {
 			return c16BigStates(v)
 		case "stream":
 			return c16SlowStream(v)
+		case "shared":
+			return c16SharedBlock(v)
 		}
 		return "ERR"
 	}
@@ -132,7 +135,57 @@ func c16SlowStream(variant int) string {
 	})
 }
 
+// c16SharedBlock: decoding one Origin does not write the block it was built from — another holder
+// of the same block (a copy of the Origin value made before decoding; the text a record was
+// scanned from) reads as before (seeded change C16-k: Bytes() decoding in place)
+func c16SharedBlock(n int) string {
+	return guarded(func() string {
+		p := c16Gen(n, 2, n%5)
+		o := seqio.NewOrigin(p)
+		twin := *o // same Buffer, made before decoding
+		block := append([]byte(nil), o.Buffer...)
+		if q := o.Bytes(); !bytes.Equal(q, p) {
+			return fmt.Sprintf("Bytes() differs from the residues at %d", firstDiff(q, p))
+		}
+		if !bytes.Equal(twin.Buffer, block) {
+			return fmt.Sprintf("decoding an Origin rewrote the block it was built from (first change at byte %d)", firstDiff(twin.Buffer, block))
+		}
+		if twin.Len() != n || twin.String() != string(block) || !bytes.Equal(twin.Bytes(), p) {
+			return "a copy of the Origin made before decoding no longer reads as before (Len / String / Bytes)"
+		}
+		// the text a record was parsed from (LF block: fast path, the Origin may alias the input)
+		text := c16Record(n, c16Layout(p))
+		keep := append([]byte(nil), text...)
+		st := pars.FromBytes(text)
+		res := pars.Result{}
+		if err := seqio.GenBankParser(st, &res); err != nil {
+			return "the intact record does not parse"
+		}
+		seq, ok := res.Value.(gts.Sequence)
+		if !ok {
+			return "the parser returned no sequence"
+		}
+		if !bytes.Equal(seq.Bytes(), p) {
+			return "residues of the parsed record differ"
+		}
+		if !bytes.Equal(text, keep) {
+			return fmt.Sprintf("decoding the parsed record rewrote the input text (first change at byte %d)", firstDiff(text, keep))
+		}
+		return "ok"
+	})
+}
+
 func c16More(r *Run) {
+	for _, n := range []int{1, 11, 60, 61, 133, 600} {
+		line := fmt.Sprintf("origin.big shared %d", n)
+		crumb(line)
+		out := c16SharedBlock(n)
+		r.count("shared-block")
+		r.eval(line, true)
+		if out != "ok" {
+			r.fail(Failure{Oracle: "decoding an Origin leaves the block it was built from (and the text it was scanned from) as it was", Op: line, Got: out})
+		}
+	}
 	ns := []int{65535, 65536, 65537, 65580, 131072 + 1}
 	if r.tier == "thorough" {
 		ns = append(ns, 60*1092, 60*1093, 1<<20+17, 196608, 262144+59)
